@@ -40,7 +40,7 @@ func zzH17b() {
 		}
 	}
 	st := zzState{fwd: zzNondetBool("forwarding"), fail: zzNondetChoice("state.fail", 2) == 1}
-	h := &Handler{ll: log.New(io.Discard, "", 0), state: st, ifaces: []config.Interface{{Name: "wan0", Monitor: true}, adv}}
+	h := NewHandler(log.New(io.Discard, "", 0), st, config.Config{Interfaces: []config.Interface{{Name: "wan0", Monitor: true}, adv}}, nil) // the real constructor (routes are recorded, not served)
 	zzEncoded, zzErrors = nil, nil
 	zzKnownClass("pref64-in-debug-api", true)
 	h.interfaces(zzWriter{}, nil) // must not panic
